@@ -823,6 +823,7 @@ func cmdMulti(args []string) int {
 	defer out.Close()
 	finish := func(m *mRun) {
 		m.soloCheck()
+		m.bucketDeleteProbe()
 		cs := multiCaseSx(m.events)
 		out.Case(cs, m.implSx())
 		out.Stats["cases"]++
@@ -879,4 +880,53 @@ func cmdMulti(args []string) int {
 		finish(m)
 	}
 	return 0
+}
+
+// bucketDeleteProbe (C19, no model; runs after the case, so the compared trace is not affected): a bucket holding ledgers with
+// data is soft-deleted (DELETE /v2/_/buckets/{bucket}: the ledgers rows get deleted_at, their data stays in the bucket tables
+// until the retention worker removes it), then ONE new ledger is created in that bucket by a process that never opened it, and
+// read: a brand-new ledger lists nothing, whatever still lies in the tables it shares.
+func (m *mRun) bucketDeleteProbe() {
+	if m.dead {
+		return
+	}
+	bucket := ""
+	for _, b := range []string{"b2", "_default"} {
+		for _, n := range m.order {
+			if l := m.led[n]; l.Bucket == b && l.Committed >= 1 && bucket == "" {
+				bucket = b
+			}
+		}
+	}
+	if bucket == "" {
+		return
+	}
+	defer func() {
+		if r := recover(); r != nil {
+			m.stats["bucket_delete_probe_unsupported"]++
+		}
+	}()
+	m.stats["bucket_delete_probes"]++
+	if err := m.procs[0].Sys.DeleteBucket(m.ctx, bucket); err != nil {
+		m.stats["bucket_delete_probe_unsupported"]++
+		return
+	}
+	fresh := m.procs[2]
+	if err := fresh.Sys.CreateLedger(m.ctx, "zzfresh", ledger.Configuration{Bucket: bucket, Features: allOn.set()}); err != nil {
+		m.stats["bucket_delete_probe_create_refused"]++
+		return
+	}
+	ctrl, err := fresh.Sys.GetLedgerController(m.ctx, "zzfresh")
+	if err != nil {
+		m.violation("[c19-fresh-ledger-unreadable]", fmt.Sprintf("[c19-fresh-ledger-unreadable] the ledger created in bucket %s after its soft deletion cannot be opened: %v", bucket, err))
+		return
+	}
+	v, _, err := m.viewVia(ctrl)
+	if err != nil {
+		m.violation("[c19-fresh-ledger-unreadable]", fmt.Sprintf("[c19-fresh-ledger-unreadable] reads on the ledger created in bucket %s after its soft deletion fail: %v", bucket, err))
+		return
+	}
+	if n := len(v.Txs) + len(v.Accs) + len(v.Logs) + len(v.Vols); n > 0 {
+		m.violation("[c19-leak-after-bucket-delete]", fmt.Sprintf("[c19-leak-after-bucket-delete] a brand-new ledger created in bucket %s after the bucket was soft-deleted lists %d transactions, %d accounts, %d logs, %d volume rows of the deleted ledgers (e.g. %v)", bucket, len(v.Txs), len(v.Accs), len(v.Logs), len(v.Vols), append(append([]string{}, v.Txs...), v.Logs...)[:1]))
+	}
 }
